@@ -38,6 +38,17 @@ main(int argc, char **argv)
                 nib(o, "gf_vect_mul_init", c, tbl);
                 all[c] = c;
         }
+        /* ... and into table slots that are not 8-byte aligned (no alignment is documented for the table) */
+        for (c = 0; c < 256; c++) {
+                unsigned char *t = tbl + 64 + 1 + (c % 15);
+                memset(tbl, 0xEE, 256);
+                gf_vect_mul_init(c, t);
+                nib(o, "gf_vect_mul_init(unaligned)", c, t);
+        }
+        memset(tbl, 0xEE, sizeof(tbl));
+        ec_init_tables_base(16, 16, all, tbl + 3);
+        for (c = 0; c < 256; c++)
+                nib(o, "ec_init_tables_base(unaligned)", c, tbl + 3 + 32 * c);
         /* the table builders over a 16x16 coefficient matrix holding every constant once */
         memset(tbl, 0xEE, sizeof(tbl));
         ec_init_tables_base(16, 16, all, tbl);
